@@ -32,7 +32,9 @@ RULE = ("one evaluation = one catalogue call (function / ndarray method / operat
         "x memory layout) executed with unit-carrying operands in a base unit assignment and again with every operand of the "
         "rescaled dimension slot(s) re-expressed exactly in another unit, judged leaf by leaf (result leaves, out= buffers, "
         "operands of mutators) by rule 1 (same physical quantity / same bare numbers) and, for same-dimension templates, by "
-        "rule 2 (result is a unyt object commensurable with an input). distinct = (template id, shape class, dtype, unit family, "
+        "rule 2 (result is a unyt object commensurable with an input). In the 'mixed' and 'stale' unit families the base run writes the "
+        "operands of one slot in two different units (another symbol / the same symbol and registry object built before and after an edit "
+        "of the registry entry) and the other run writes all of them in one fixed unit of an untouched registry. distinct = (template id, shape class, dtype, unit family, "
         "rule); cases both runs refuse, and cases NumPy itself refuses on bare data, are counted but are no cells")
 ASSUMPTIONS = (
     "trusted base: NumPy on bare data decides only whether a generated call is valid; vf.ref.uexpr + the dyadic atom table / vf.ref.defs give scale and dimension vector of the *printed* unit of a result (unyt's base_value and unyt's .to() are not used)",
@@ -49,8 +51,10 @@ ASSUMPTIONS = (
     "rule 2 is applied to the catalogue's same-dimension tag except where the tag is too coarse (in-place multiplicative operators, callables deciding the dimension, np.where(cond) returning indices, sum-of-weights of np.average); in a tuple result integer/boolean leaves after the first one count as index-like when the input data are float/complex (with integer input data such leaves are not judged); a leaf that failed rule 2 is not reported again by rule 1",
     "a refusal (exception) in both runs is allowed by the property; a refusal in exactly one run is a covariance violation; results of functions unyt declares unsupported are judged like any other when they return (keyed without the leaf index)",
     "slot '1' operands (must be dimensionless by the template) are never rescaled; offset and logarithmic units are excluded (DESIGN 1.10); besides random data every template is driven with the all-zero input class (zero is the same quantity in every unit; unyt special-cases it)",
+    "stale families (history x combination): a Unit object is a snapshot of the registry entry it was built from, so after UnitRegistry.modify / remove+add two operands can carry the same symbol in the same registry object with different sizes; what such an operand denotes is its numbers x the scale of the Unit object it carries, not the current meaning of the printed symbol. The harness builds both snapshots itself, checks on the objects that they have the sizes its own table says (old: TABLE, new: 2**(12k)) and rescales the numbers of the operand written in the other snapshot exactly; the reference run writes every operand in one unit of an untouched registry. A unit-carrying result leaf of the stale run is read as numbers x the base_value stored in the Unit object attached to it (an attribute, no conversion routine is called; the printed symbol is ambiguous there), its dimension still by vf.ref from the printed expression; leaves of the reference run are read by vf.ref only. A refusal of the stale combination is accepted (counted, listed per function) like a refusal of mixed units; quotients of two snapshots print 'dimensionless' but carry the ratio as scale and are judged by that scale",
+    "the binary ufuncs (add ... remainder, comparisons, arctan2; multiply/divide as controls) and the compositions reduce-then-combine are C07's own templates (vf/gen/c07_templates.py): fmod/remainder get divisors >= 1, comparisons small integers so that ties occur",
     "np.unique_values leaves the order of its result unspecified: compared as multisets",
-    "mechanism key = C07:<function>[(<minimal set of optional parameters whose forms fail> | options)]:<failure kind>:<result leaf | out-buffer | operand#k>[:<data type class when float data do not show it>][:ordinary-units when the dyadic pool does not show it]; generic (no parenthesis) when the plain call form fails",
+    "mechanism key = C07:<function>[(<minimal set of optional parameters whose forms fail> | options)]:<failure kind>:<result leaf | out-buffer | operand#k>[:<data type class when float data do not show it>][:mixed-units | :stale-units | :ordinary-units when only the mixed families / only the stale families / only ordinary units show it]; generic (no parenthesis) when the plain call form fails",
 )
 MIN_EVALS = 100000
 TIMEOUT = 3600
@@ -81,6 +85,22 @@ FAM_THOROUGH = FAM_QUICK + [
 # numbers x 2**12), variant run = all of them in Lb.  A refusal of the mixed call is accepted (and counted).
 FAM_MIXED_QUICK = [("dy-mixed", "dyadic", {"A": "Lb", "B": "Tb"}, {"A": ("La", 4096), "B": ("Ta", 4096)})]
 FAM_MIXED_THOROUGH = FAM_MIXED_QUICK + [("dy-mixed-up", "dyadic", {"A": "La", "B": "Ta"}, {"A": ("Lb", 1.0 / 4096), "B": ("Tb", 1.0 / 4096)})]
+# 'stale' families (history x combination): Unit objects are snapshots of the registry entry they were built from.  In the base
+# run the first operand of every slot carries the Unit built *before* the registry entry of its symbol was edited (modify, or
+# remove + add), every further operand of that slot the Unit built *after* it: same symbol, same registry object, another size
+# (numbers rescaled exactly by the harness).  Variant run = everything in the slot's unit from the untouched registry.
+# (name, kind, slot units, how the entry is edited, k of the new definition (size 2**(12k)), which operands are stale)
+FAM_STALE_QUICK = [
+    ("dy-stale", "dyadic", {"A": "Lb", "B": "Tb"}, "modify", 0, "first"),           # first operand old (2**12), further ones new (1): numbers x 4096
+    ("dy-stale-readd-rev", "dyadic", {"A": "Lb", "B": "Tb"}, "readd", 0, "others"),   # first operand new, further ones old
+]
+FAM_STALE_THOROUGH = FAM_STALE_QUICK + [
+    ("dy-stale-up", "dyadic", {"A": "Lb", "B": "Tb"}, "modify", 2, "first"),          # further operands in a larger unit (numbers / 4096; floats only)
+    ("dy-stale-readd", "dyadic", {"A": "Lb", "B": "Tb"}, "readd", 2, "first"),
+    ("dy-stale-rev", "dyadic", {"A": "Lb", "B": "Tb"}, "modify", -1, "others"),
+    ("dy-stale-compound", "dyadic", {"A": "Mb*Lb/Ta**2", "B": "1/Tb"}, "modify", 0, "first"),
+    ("dy-stale-0d-array", "dyadic", {"A": "Lb", "B": "Tb"}, "modify", 0, "first"),
+]
 LAYOUT_DRAW = ("C", "C", "C", "F", "strided", "reversed", "T")
 
 
@@ -211,9 +231,10 @@ def _sorted_flat(a):
     return np.sort(a)
 
 
-def compare_leaf(x1, x2, kind, case_eps, unordered=False, floor=0.0):
+def compare_leaf(x1, x2, kind, case_eps, unordered=False, floor=0.0, own1=False):
     """rule 1 on one pair of leaves. -> None | ('discard', why) | (failure kind, detail[, relative deviation])
-    floor (ordinary units only): largest magnitude among the base run's input numbers - the absolute rounding-noise floor"""
+    floor (ordinary units only): largest magnitude among the base run's input numbers - the absolute rounding-noise floor
+    own1 (stale families): the scale of the base run's leaf is the one its own Unit object carries (dimension still by vf.ref)"""
     k1, k2 = leaf_kind(x1), leaf_kind(x2)
     if k1 == "opaque" or k2 == "opaque":
         return None if k1 == k2 else ("nesting-or-shape-depends-on-units", f"{type(x1).__name__} vs {type(x2).__name__}")
@@ -235,6 +256,10 @@ def compare_leaf(x1, x2, kind, case_eps, unordered=False, floor=0.0):
         if r1[1] != r2[1]:
             return ("dimension-depends-on-units", f"[{u1}] has {rdims.show(r1[1])}, [{u2}] has {rdims.show(r2[1])}")
         s1, s2 = r1[0], r2[0]
+        if own1:
+            s1 = own_scale(x1)
+            if s1 is None:
+                return ("unit-object-without-usable-scale", f"[{u1}] carries base_value {getattr(x1.units, 'base_value', None)!r}")
     what = "unit-not-covariant" if k1 == "unit" else "bare-result-depends-on-units"
     ints = a1.dtype.kind in "biu" and a2.dtype.kind in "biu" and (kind == "dyadic" or k1 == "bare")
     if ints:
@@ -327,7 +352,11 @@ def make_wrap(unyt, reg, assign, factors, zero_d="quantity"):
     for k, v in assign.items():
         units[k] = unyt.Unit(v, registry=reg) if reg is not None else unyt.Unit(v)
     units["1"] = unyt.Unit("", registry=reg) if reg is not None else unyt.Unit("")
+    return make_wrap_units(unyt, units, factors, zero_d)
 
+
+def make_wrap_units(unyt, units, factors, zero_d="quantity"):
+    """units: {slot: Unit object} (objects, not strings: a Unit built earlier keeps the definition it was built with)"""
     def wrap(data, dim, q):
         u = units[dim]
         f = factors.get(dim, 1)
@@ -382,6 +411,73 @@ def make_mixed_wrap(unyt, reg, assign, alt, zero_d="quantity"):
         seen.clear()
     wrap.reset = reset
     return wrap
+
+
+def make_first_other_wrap(first, other):
+    """the first operand realised in every slot is wrapped by `first`, every further one (not out= buffers) by `other`"""
+    seen = {}
+
+    def wrap(data, dim, q):
+        if dim not in ("A", "B") or q.role == "out":
+            return first(data, dim, q)
+        n = seen.get(dim, 0)
+        seen[dim] = n + 1
+        return (first if n == 0 else other)(data, dim, q)
+    wrap.reset = seen.clear
+    return wrap
+
+
+class StaleSetupFailed(Exception):
+    pass
+
+
+def make_stale_wraps(unyt, base, how, new_k, stale, zero_d="quantity"):
+    """-> wrap for the base run of a 'stale' family.  A registry of its own gets the history
+    build units -> edit the entries of every atom the slots use -> build the units again; the harness' own table says what
+    the two snapshots mean (old: TABLE, new: 2**(12*new_k)); the set-up is verified on the objects before anything is judged."""
+    from unyt import dimensions as ud
+    sym = {"L": ud.length, "T": ud.time, "M": ud.mass}
+    reg2 = dyadic.registry(unyt, TABLE)
+    old = {s: unyt.Unit(e, registry=reg2) for s, e in base.items()}
+    old["1"] = unyt.Unit("", registry=reg2)
+    atoms = sorted({a for e in base.values() for a in TABLE if a in e})
+    new_table = dict(TABLE)
+    for a in atoms:
+        letter = TABLE[a][0]
+        new_table[a] = (letter, new_k)
+        if how == "modify":
+            reg2.modify(a, 2.0 ** (dyadic.STEP * new_k))
+        else:
+            reg2.remove(a)
+            reg2.add(a, 2.0 ** (dyadic.STEP * new_k), sym[letter])
+    new = {s: unyt.Unit(e, registry=reg2) for s, e in base.items()}
+    new["1"] = old["1"]
+    fac = {}
+    for s, e in base.items():
+        so, sn = dyadic.evaluate(e, TABLE)[0], dyadic.evaluate(e, new_table)[0]
+        # the snapshots must be what the history says (else the class is not driven: the gate in extra() then reports it)
+        if float(old[s].base_value) != so or float(new[s].base_value) != sn or old[s].registry is not new[s].registry or str(old[s]) != str(new[s]) or so == sn:
+            raise StaleSetupFailed(f"{e}: old {old[s].base_value!r} (expected {so!r}), new {new[s].base_value!r} (expected {sn!r})")
+        r = Fr(so) / Fr(sn)                       # numbers of an operand written in the new snapshot
+        fac[s] = int(r) if r.denominator == 1 else float(r)
+    w_old = make_wrap_units(unyt, old, {}, zero_d)
+    w_new = make_wrap_units(unyt, new, fac, zero_d)
+    return make_first_other_wrap(w_old, w_new) if stale == "first" else make_first_other_wrap(w_new, w_old)
+
+
+def own_scale(x):
+    """scale of the Unit object a result leaf carries, read from the object's own bookkeeping (stale families only: the
+    printed symbol is ambiguous there); snapped to the exact power of two like ref_unit; None if it is not a positive number"""
+    try:
+        s = float(x.units.base_value)
+    except Exception:
+        return None
+    if not (s > 0 and math.isfinite(s)):
+        return None
+    e = round(math.log2(s))
+    if abs(s / 2.0 ** e - 1.0) < 1e-12:
+        s = 2.0 ** e
+    return s
 
 
 def family_factors(kind, base, var):
@@ -459,6 +555,16 @@ def worker(batch, rec):
         wraps[name] = (kind, make_wrap(unyt, r, base, {}, zd), make_wrap(unyt, r, var, fac, zd), base)
     for name, kind, base, alt in (FAM_MIXED_QUICK if quick else FAM_MIXED_THOROUGH):
         wraps[name] = (kind, make_mixed_wrap(unyt, reg, base, alt), make_wrap(unyt, reg, base, {}), base)
+    for name, kind, base, how, new_k, stale in (FAM_STALE_QUICK if quick else FAM_STALE_THOROUGH):
+        zd = "array" if name.endswith("0d-array") else "quantity"
+        try:
+            wraps[name] = (kind, make_stale_wraps(unyt, base, how, new_k, stale, zd), make_wrap(unyt, reg, base, {}, zd), base)
+            rec.count("stale-families-set-up")
+        except StaleSetupFailed as e:
+            # the history did not produce two snapshots of different size: the class cannot be driven (registry edits are C12's
+            # subject); nothing is judged for this family and the gate in extra() reports the missing evaluations
+            rec.count("stale-family-set-up-failed")
+            rec.note(f"stale-family-set-up-failed:{name}:{e}")
     bf = nc.by_function()
     for fname in payload["funcs"]:
         fails = {}     # (failure kind, where) -> [entry]
@@ -508,21 +614,36 @@ def run_template(t, rec, seed, dtypes, draws, wraps, fails):
 
 def judge_case(t, call, layout, shape, dt, fam, kind, w1, w2, base, slots, rec, fails, skip1, skip2):
     tags = t.tags
-    mixed = fam.startswith("dy-mixed")
+    stale = fam.startswith("dy-stale")
+    mixed = fam.startswith("dy-mixed") or stale          # both: one slot written in two units in the base run
+    mtag = "stale-units" if stale else "mixed-units"
+    if stale:
+        per_slot = {}
+        for _, q in call.leaves():
+            if q.dim in ("A", "B") and not q.bare and q.role != "out":
+                per_slot[q.dim] = per_slot.get(q.dim, 0) + 1
+        if not any(n >= 2 for n in per_slot.values()):
+            return          # no slot has two unit-carrying operands: no snapshot pair meets
     if mixed and sum(1 for _, q in call.leaves() if q.dim in ("A", "B") and not q.bare and q.role != "out") < 2:
         return          # nothing to mix: one unit-carrying operand only
     o1 = _run(t, call, w1, layout)
     o2 = _run(t, call, w2, layout)
     if mixed and o1[0] == "exc" and o2[0] == "ok":
         # operands of one dimension written in two different units: a refusal is not a covariance failure
-        rec.count("mixed-units-refused")
-        rec.note(f"mixed-units-refused:{t.func_name}")
+        rec.count(mtag + "-refused")
+        rec.note(f"{mtag}-refused:{t.func_name}")
+        if stale:
+            rec.reach("stale-refused:" + t.func_name)
         return
     if mixed and t.func_name in ("numpy.array_equal", "numpy.array_equiv"):
-        rec.count("mixed-units-not-judged:equal-units-required-by-definition")     # C19: these also require equal units
+        rec.count(mtag + "-not-judged:equal-units-required-by-definition")     # C19: these also require equal units
         return
     if mixed:
-        rec.count("mixed-units-pairs-run")
+        rec.count(mtag + "-pairs-run")
+    if stale:
+        rec.reach("stale-cmp:" + t.func_name)
+        rec.count("stale-units-pairs-run:" + ("ufunc" if t.func_name.startswith("numpy.") and isinstance(t.target, np.ufunc) else
+                                              "composition" if t.func_name.startswith("c07.") else t.kind))
     if o1[0] == "unusable" or o2[0] == "unusable":
         rec.count("discarded:rescaling-not-exact-in-this-dtype")
         return
@@ -531,7 +652,7 @@ def judge_case(t, call, layout, shape, dt, fam, kind, w1, w2, base, slots, rec, 
         if "unsupported" in tags:          # the mechanism is that the declared-unsupported function ran at all, not the leaf
             where = where.split("[")[0]
         fails.setdefault((fkind, where), []).append({
-            "base": t.form == "base", "names": form_names(t, call), "dt": dt_class(dt), "ukind": "dyadic-mixed" if mixed else kind,
+            "base": t.form == "base", "names": form_names(t, call), "dt": dt_class(dt), "ukind": "dyadic-stale" if stale else "dyadic-mixed" if mixed else kind,
             "desc": f"{t.tid} [{shape},{dt},{fam}] {where}: {detail}",
             "case": {"template": t.tid, "shape": shape, "dtype": dt, "family": fam, "args": call.args, "kwargs": call.kwargs,
                      "where": where, "detail": detail}})
@@ -644,11 +765,13 @@ def judge_case(t, call, layout, shape, dt, fam, kind, w1, w2, base, slots, rec, 
         if kind != "dyadic" and (t.func_name, where) in meta.SIGN_AMBIGUOUS_LEAVES:
             rec.count("rule1-not-judged:sign-or-order-ambiguous-leaf-with-inexact-rescaling")
             continue
-        d = compare_leaf(x, y, kind, case_eps, unordered, floor)
+        d = compare_leaf(x, y, kind, case_eps, unordered, floor, own1=stale)
         sub = "out-buffer" if where == "out-buffer" else "operand" if where.startswith("operand") else "result"
         if d is None:
             rec.count(f"rule1-{sub}-leaves-compared")
             rec.count(f"rule1-{leaf_kind(x)}-leaves:{kind}")
+            if stale:
+                rec.count(f"stale-units-{leaf_kind(x)}-leaves-compared")
             continue
         if d[0] == "discard":
             rec.count("discarded:" + d[1].split(":")[0])
@@ -673,7 +796,7 @@ def judge_case(t, call, layout, shape, dt, fam, kind, w1, w2, base, slots, rec, 
         if mixed and d[0] == "not-bit-exact":
             # unyt has to convert the operand written in the other unit: the result may come back in another float width
             # (float32 data, float64 conversion) - a rounding-sized difference is C17's subject, not a covariance failure
-            rec.count("mixed-units-held-within-rounding")
+            rec.count(mtag + "-held-within-rounding")
             rec.count(f"rule1-{sub}-leaves-compared")
             continue
         if np.dtype(dt).kind in "iu" and _integer_artifact(t, call, layout, w1, w2):
@@ -686,6 +809,11 @@ def judge_case(t, call, layout, shape, dt, fam, kind, w1, w2, base, slots, rec, 
         rec.ok((t.tid, shape, dt, fam, "rule1"))
         if fam == "dy-both":
             rec.sample({"template": t.tid, "shape": shape, "dtype": dt, "base": _show(r1), "variant": _show(r2)}, limit=2)
+
+
+def _reset(w):
+    if hasattr(w, "reset"):
+        w.reset()
 
 
 def _show(r):
@@ -704,11 +832,13 @@ def _integer_artifact(t, call, layout, w1, w2):
     Only the rescaled operands (slots A, B) are turned into floats; index-like slot-1 operands stay as they are."""
     for w in (w1, w2):
         try:
+            _reset(w)
             a, k, _ = call.realize(lambda d, dim, q: np.asarray(w(d, dim, q)), layout)
             ri = t.observe(a, k, t.invoke(a, k))
         except Exception:
             return True
         try:
+            _reset(w)
             a, k, _ = call.realize(lambda d, dim, q: np.asarray(w(d, dim, q)).astype("f8") if dim in ("A", "B") and d.dtype.kind in "iu" else np.asarray(w(d, dim, q)), layout)
             rf = t.observe(a, k, t.invoke(a, k))
         except Exception:
@@ -735,6 +865,7 @@ def _numpy_inexactness(t, call, layout, w1, w2):
     try:
         res = []
         for w in (w1, w2):
+            _reset(w)
             a, k, _ = call.realize(lambda d, dim, q: np.asarray(w(d, dim, q)), layout)
             res.append([np.asarray(x) for _, x in flatten(t.observe(a, k, t.invoke(a, k))) if leaf_kind(x) != "opaque"])
     except Exception:
@@ -788,7 +919,8 @@ def emit(fname, fails, rec):
         for fq, es in sorted(groups.items()):
             dcs = {e["dt"] for e in es}
             dq = "" if "float" in dcs else (":" + sorted(dcs)[0] if len(dcs) == 1 else ":non-float")
-            uq = "" if any(e["ukind"] == "dyadic" for e in es) else (":mixed-units" if any(e["ukind"] == "dyadic-mixed" for e in es) else ":ordinary-units")
+            uks = {e["ukind"] for e in es}
+            uq = "" if "dyadic" in uks else ":mixed-units" if "dyadic-mixed" in uks else ":stale-units" if "dyadic-stale" in uks else ":ordinary-units"
             key = f"C07:{fname}{fq}:{fkind}:{where}{dq}{uq}"
             for e in sorted(es, key=lambda e: (not e["base"], e["dt"] != "float", ",f8," not in e["desc"], e["desc"])):
                 rec.violation(key, e["desc"], e["case"])
@@ -816,6 +948,10 @@ def extra(tier, seed, results):
         "pairs of runs, operators/protocols": counters.get("pairs-run:op", 0),
         "pairs of runs with one slot written in two units (mixed families)": counters.get("mixed-units-pairs-run", 0),
     }
+    for what in ("ufunc", "op", "composition", "function", "method"):
+        deciding[f"pairs of runs with an operand carrying a stale snapshot of the other operand's unit (stale families), {what}"] = counters.get("stale-units-pairs-run:" + what, 0)
+    deciding["stale families, unit-carrying leaves compared by the scale their own Unit object carries"] = counters.get("stale-units-unit-leaves-compared", 0)
+    deciding["stale families, bare leaves compared"] = counters.get("stale-units-bare-leaves-compared", 0)
     if tier != "quick":
         deciding["rule 1, unit-carrying leaves compared within tolerance (ordinary units)"] = counters.get("rule1-unit-leaves:ordinary", 0)
     ok_batches = [r for _, r in results if r.get("status") == "ok"]
@@ -827,6 +963,10 @@ def extra(tier, seed, results):
             raise core.Inconclusive(f"only {len(cmp_)} of {len(funcs)} catalogued functions produced a comparable pair of runs")
     return {
         "sub_monitors": deciding,
+        "stale_families": {"set_up": counters.get("stale-families-set-up", 0), "set_up_failed": counters.get("stale-family-set-up-failed", 0),
+                           "pairs_run": counters.get("stale-units-pairs-run", 0), "refused_in_the_stale_run_only": counters.get("stale-units-refused", 0),
+                           "functions_with_a_compared_stale_pair": sorted(f for f in funcs if "stale-cmp:" + f in reached),
+                           "functions_refusing_stale_pairs_only": sorted(f for f in funcs if "stale-refused:" + f in reached and "stale-cmp:" + f not in reached)},
         "catalogue": {"templates": len(nc.catalog()), "functions_and_methods": len(funcs), "functions_with_a_compared_pair": len(cmp_)},
         "unreached": {"wrappable_without_template": nc.without_template(),
                       "never_compared": sorted(set(funcs) - cmp_ - refused),
